@@ -304,7 +304,8 @@ def run_textgears(plain):
             'context': checks.create_context(plain, offset, length),
             'replacements': list({'value': r} for r in
                                     json_get(err, 'better', list)),
-            'rule': {'id': 'Not available'},
+            'rule': {'id': 'Not available',
+                        'category': {'name': 'Not available'}},
         }
     return list(f(err) for err in json_get(dic, 'errors', list))
 
